@@ -84,7 +84,7 @@ def match_known(known, prop, case, msg):
 
 def run_check(prop, cases, tier, seed, level='model_checking', functions=(), bounds=None, assumptions=(),
               trusted=(), explanation='', setup=None, timeout_ms=None, procs=None, extra_cov=None, tags=driver.HARNESS_TAG,
-              pre_results=None, replay_flags=''):
+              pre_results=None, replay_flags='', post_results=None):
     """returns exit code. `cases` is a list of Case."""
     t0 = time.time()
     timeout_ms = timeout_ms or (60000 if tier == 'quick' else 600000)
@@ -93,6 +93,7 @@ def run_check(prop, cases, tier, seed, level='model_checking', functions=(), bou
     results = driver.run_cases(_run_case, jobs, procs=procs)
     if pre_results:
         results = list(pre_results) + results
+    post_broken = post_results([r for r in results if 'error' not in r]) if post_results else []
     if os.environ.get('VERIF_TIMES'):
         for r in sorted(results, key=lambda r: -r.get('wall_s', 0))[:10]:
             print('  time %.1fs %s paths=%s' % (r.get('wall_s', 0), r.get('case'), r.get('paths')))
@@ -102,7 +103,7 @@ def run_check(prop, cases, tier, seed, level='model_checking', functions=(), bou
     replays = 0
     unreplayed = 0
     per_msg = {}
-    broken = []
+    broken = list(post_broken)
     seen_known = set()
     for res in results:
         if 'error' in res:
